@@ -52,6 +52,19 @@ Theorem C03_start_sublex :
 Proof. exact c_start_sublex_pos. Qed.
 Print Assumptions C03_start_sublex.
 
+Theorem C03_peek_observers_canonical :
+  forall m t lx, PosOK m t lx ->
+  (forall sp, c_peek_parse_span lx = Some sp -> Canonical m t (sstart sp) /\ Canonical m t (send sp)) /\
+  (forall p, c_peek_cursor_pos lx = Some p -> Canonical m t p).
+Proof. intros m t lx H. split; [intros sp; exact (peek_parse_span_pos m t lx sp H)|intros p; exact (peek_cursor_pos_pos m t lx p H)]. Qed.
+Print Assumptions C03_peek_observers_canonical.
+
+Theorem C03_is_empty_with_filter :
+  forall m, 1 <= tabw m -> forall t, wf_text t -> forall lx b lx',
+  PosOK m t lx -> c_is_empty_with_filter lx = Ok (b, lx') -> PosOK m t lx'.
+Proof. exact c_is_empty_with_filter_pos. Qed.
+Print Assumptions C03_is_empty_with_filter.
+
 (** builder order: the metrics builders re-measure every held position under the NEW metrics; every
     position whose byte offset is a character boundary that does not split a line ending of the new
     metrics becomes the canonical position of that offset (any boundary is good for LF and CR) *)
